@@ -86,7 +86,8 @@ def sensitivity(args, drv):
             r = subprocess.run(["git", "-C", wt, "apply", patch], capture_output=True, text=True)
             if r.returncode != 0:
                 return c, "apply-failed", r.stderr[-300:]
-            env = dict(os.environ, VERIF_REPO=wt, VERIF_REPLAY_DIR="/tmp/verif_sens_replays_%d" % os.getpid(), VERIF_WORKERS="8")
+            rdir = "/tmp/verif_sens_replays_%d_%s" % (os.getpid(), c["id"].replace("/", "_"))
+            env = dict(os.environ, VERIF_REPO=wt, VERIF_REPLAY_DIR=rdir, VERIF_WORKERS="8")
             cmd = [os.path.join(VERIF, "check"), c["check"], "--tier", "quick", "--seed", str(c.get("seed", 1))]
             if c.get("budget"):
                 cmd += ["--budget", str(c["budget"])]
@@ -103,7 +104,7 @@ def sensitivity(args, drv):
             return c, status, (line[0].strip()[:160] if line else "")
         finally:
             subprocess.run(["git", "-C", "/repo", "worktree", "remove", "--force", wt], capture_output=True)
-            shutil.rmtree("/tmp/verif_sens_replays_%d" % os.getpid(), ignore_errors=True)
+            shutil.rmtree("/tmp/verif_sens_replays_%d_%s" % (os.getpid(), c["id"].replace("/", "_")), ignore_errors=True)
 
     with cf.ThreadPoolExecutor(2) as ex:
         for c, st, info in ex.map(one, cat):
